@@ -10,7 +10,8 @@ Streams (every case = one real constructor call; observation = accepted + model_
   multi      2-4 fields at once (cross-field validators), mostly in developer mode
   names      DailyModel(model=<spelling variants>)
   stored     build -> to_dict / to_json -> from_json : recorded settings == built settings, reload
-  hourly_stored  the same for HourlyModel, with real fits (oracle only)
+  hourly_stored  the same for HourlyModel, with real fits on data carrying a supplemental time-series column, dict and
+             (reused) settings-object input: settings after fit == recorded == reloaded == as built (oracle only)
   oracle     inputs outside the model's alphabet (numeric strings, tuples, NaN/inf): property oracle only
 The oracle is the statement, literally, evaluated on what the implementation did, against /verif/approved_settings.json."""
 import contextlib
@@ -909,44 +910,103 @@ def oracle_stored(case, obs):
     return fails
 
 
-HOURLY_STORED_DOCS = [None, {"cvrmse_threshold": 2.5, "Elasticnet": {"ALPHA": 0.5}}, {"train_features": ["temperature"], "seed": 7},
-                      {"temperature_bin": {"bin_width": 8}, "scaling_method": " RobustScaler "},
-                      {"temporal_cluster": {"recluster_count": 2}, "min_daily_training_hours": 10}]
+HOURLY_STORED_DOCS = [
+    None,
+    {"train_features": ["temperature"], "supplemental_time_series_columns": ["occupancy"], "seed": 7},
+    {"cvrmse_threshold": 2.5, "Elasticnet": {"ALPHA": 0.5}},
+    {"train_features": ["temperature"], "seed": 7},
+    {"supplemental_time_series_columns": ["occupancy"]},
+    {"temperature_bin": {"bin_width": 8}, "scaling_method": " RobustScaler "},
+    {"train_features": ["temperature", "occupancy"], "supplemental_time_series_columns": ["occupancy", "absent_column"]},
+    {"temporal_cluster": {"recluster_count": 2}, "min_daily_training_hours": 10},
+]
+# (settings class, kwargs): one settings object handed to two models in a row, as a caller running many meters does
+HOURLY_STORED_OBJECTS = [
+    ("HourlyNonSolarSettings", {"train_features": ["temperature"], "supplemental_time_series_columns": ["occupancy"], "seed": 7}),
+    ("BaseHourlySettings", {"train_features": ["temperature"], "supplemental_time_series_columns": ["occupancy"]}),
+    ("BaseHourlySettings", {"supplemental_time_series_columns": ["occupancy"]}),
+]
+
+
+def hourly_frame_with_supplement(seed):
+    import random
+    import numpy as np
+    import fitlib
+    df = fitlib.hourly_frame(random.Random(seed), ndays=120)
+    hour = df.index.hour.to_numpy()
+    occ = ((hour >= 8) & (hour <= 18) & (df.index.dayofweek.to_numpy() < 5)).astype(float)
+    df["occupancy"] = occ + np.random.default_rng(seed).normal(0, 0.05, len(df))
+    df["observed"] = df["observed"] + 0.5 * occ
+    return df
+
+
+def settings_fixed_at_construction(built, later):
+    """differences a fit / store / reload may NOT make to the settings a model was built with.  The one documented
+    exception: train_features=None is filled with the default features at fit time (settings.add_default_features)."""
+    return [(p_, v) for p_, v in pdiff(later, built)
+            if not (p_ == ["train_features"] and built.get("train_features") is None)]
 
 
 def hourly_stored(run, impl):
-    """real hourly fits (about 0.5 s each): the settings a fitted HourlyModel records are the ones it holds, and
-    from_json gives them back (the model does not cover fit-time defaulting of train_features: oracle only)"""
-    import random
+    """real hourly fits (about 0.5 s each) on data that carries a supplemental time-series column: the settings a
+    fitted HourlyModel holds, records (to_dict) and gives back (from_json) are the ones it was built with, and a
+    settings object handed in by the caller is left as it was (the model does not cover fit: oracle only)"""
     import fitlib
-    data = fitlib.hourly_baseline(fitlib.hourly_frame(random.Random(run.seed), ndays=120))
-    docs = HOURLY_STORED_DOCS[:run.n(3, len(HOURLY_STORED_DOCS))]
-    for doc in docs:
+    data = fitlib.hourly_baseline(hourly_frame_with_supplement(run.seed % 100000))
+    jobs = [("dict", None, doc) for doc in HOURLY_STORED_DOCS[:run.n(4, len(HOURLY_STORED_DOCS))]]
+    for cls, kw in HOURLY_STORED_OBJECTS[:run.n(2, len(HOURLY_STORED_OBJECTS))]:
+        jobs.append(("object", cls, kw))
+    for kind, cls, doc in jobs:
         case = {"stream": "hourly_stored", "ctor": {"c": "HourlyModel"},
-                "input": {"kind": "none"} if doc is None else {"kind": "dict", "doc": doc}, "meta": {"claim": None}}
-        run.count(vlib.sha(["hourly_stored", doc]), True)
+                "input": ({"kind": "none"} if doc is None else {"kind": "dict", "doc": doc}) if kind == "dict"
+                else {"kind": "obj", "cls": cls, "doc": doc}, "meta": {"claim": None}}
+        run.count(vlib.sha(["hourly_stored", kind, cls, doc]), True)
         run.dist("stream", "hourly_stored")
+        rounds = []
         try:
             with contextlib.redirect_stdout(io.StringIO()):
-                m = impl.HourlyModel() if doc is None else impl.HourlyModel(settings=doc)
-                m.fit(data, ignore_disqualification=True)
-                held = canon(m.settings.model_dump())
-                rec = canon(m.to_dict()["settings"])
-                m2 = impl.HourlyModel.from_json(m.to_json())
-                back = canon(m2.settings.model_dump())
+                caller = impl.cls[cls](**materialise(impl, doc)) if kind == "object" else None
+                caller_built = canon(caller.model_dump()) if caller is not None else None
+                for _ in range(2 if kind == "object" else 1):      # the same settings object for a second model
+                    m = impl.HourlyModel(settings=caller) if kind == "object" else (
+                        impl.HourlyModel() if doc is None else impl.HourlyModel(settings=materialise(impl, doc)))
+                    built = canon(m.settings.model_dump())
+                    m.fit(data, ignore_disqualification=True)
+                    d = m.to_dict()
+                    used = list(d.get("ts_features") or [])
+                    held = canon(m.settings.model_dump())
+                    rec = canon(d["settings"])
+                    back = canon(impl.HourlyModel.from_json(m.to_json()).settings.model_dump())
+                    rounds.append((built, held, rec, back, used, canon(caller.model_dump()) if caller is not None else None))
         except Exception as e:
             run.violation({"call": "HourlyModel.to_json/from_json", "broken": "store or reload failed", "raised": type(e).__name__},
                           "C14: a fitted HourlyModel could not be stored and reloaded: %s: %s" % (type(e).__name__, str(e)[:150]),
                           case=case, generator="c14.hourly_stored")
             continue
-        for p_, v in pdiff(rec, held):
-            run.violation({"call": "HourlyModel.to_dict", "broken": "recorded != built", "field": ".".join(p_), "family": "hourly"},
-                          "C14: HourlyModel records %s = %r, the fitted model holds %r" % (".".join(p_), jsonable(v), jsonable(get_path(held, p_))),
-                          case=case, observation={"recorded": jsonable(rec), "held": jsonable(held)}, generator="c14.hourly_stored")
-        for p_, v in pdiff(back, held):
-            run.violation({"call": "HourlyModel.from_json", "broken": "reloaded != built", "field": ".".join(p_), "family": "hourly"},
-                          "C14: after reload %s = %r, the fitted model held %r" % (".".join(p_), jsonable(v), jsonable(get_path(held, p_))),
-                          case=case, observation={"reloaded": jsonable(back), "held": jsonable(held)}, generator="c14.hourly_stored")
+        sup = (doc or {}).get("supplemental_time_series_columns") or []
+        run.dist("hourly_stored", "%s input, supplemental column %s" % (kind, "used by fit" if any(c in rounds[0][4] for c in sup) else "none"))
+        for rnd, (built, held, rec, back, used, caller_now) in enumerate(rounds):
+            checks = [("HourlyModel.fit", "settings changed by fit", held, "after fit model.settings holds"),
+                      ("HourlyModel.to_dict", "recorded != built", rec, "to_dict records"),
+                      ("HourlyModel.from_json", "reloaded != built", back, "after reload the settings hold")]
+            if caller_now is not None:
+                checks.append(("HourlyModel.fit", "caller's settings object changed", caller_now, "the caller's settings object holds"))
+            for call, broken, later, words in checks:
+                ref = caller_built if broken.startswith("caller") else built
+                for p_, v in settings_fixed_at_construction(ref, later):
+                    run.violation({"call": call, "broken": broken, "field": ".".join(p_), "family": "hourly", "input": kind},
+                                  "C14: HourlyModel built with %s = %r (%s input%s): %s %r"
+                                  % (".".join(p_), jsonable(get_path(ref, p_)), kind, ", second model from the same object" if rnd else "",
+                                     words, jsonable(v)),
+                                  case=case, observation={"built": jsonable(ref), "later": jsonable(later), "ts_features": used},
+                                  generator="c14.hourly_stored")
+            if rnd and caller_built is not None:
+                for p_, v in pdiff(built, caller_built):
+                    run.violation({"call": "HourlyModel", "broken": "second model built from altered settings", "field": ".".join(p_),
+                                   "family": "hourly", "input": kind},
+                                  "C14: the second model built from the caller's settings object starts with %s = %r, the caller constructed %r"
+                                  % (".".join(p_), jsonable(v), jsonable(get_path(caller_built, p_))),
+                                  case=case, generator="c14.hourly_stored")
 
 
 def confirm_unusable_season(impl, doc):
